@@ -1,4 +1,5 @@
 import LachesisVerif.Model.SyncedPool
+import LachesisVerif.Gen.FactsC25
 /-!
 # C25 — Multi-database flushes are crash consistent
 
@@ -1932,3 +1933,10 @@ example (k : Nat) (order : List Name) (hcov : Covers (replay ((Pool.init.run w_o
   C25_crash_consistent (.pool w_ops w_ops_valid) k order hcov
 
 end C25
+
+/-! ### Structural expectations (regenerated facts `Gen.FactsC25`)
+The pool model's flush writes the dirty marks first, then closes and drops the queued DBs, then
+flushes the data (the clean marks come last). -/
+namespace C25Facts
+theorem flush_order : Gen.FactsC25.poolDirtyBeforeDrop = true ∧ Gen.FactsC25.poolCloseBeforeDrop = true ∧ Gen.FactsC25.poolDropBeforeData = true := by decide
+end C25Facts
